@@ -20,16 +20,35 @@ from typing import Any, Callable, Dict, List, Optional, Sequence, Tuple
 from .index import FuncInfo, Index, dotted
 from .symeval import Closure, EvalRaise, Evaluator, Obj, Opaque, Unsupported
 
-SIZES = {"B": 7, "b0": 7, "k": 37, "e0": 2, "e1": 3, "e2": 5, "e3": 11, "C": 13, "N": 17, "i0": 19, "i1": 23, "S": 29, "D": 31, "1": 1, "u0": 1, "u1": 1}
+SIZES = {"B": 7, "b0": 7, "k": 37, "n0": 41, "T": 43, "N": 47, "H": 53, "S": 59, "e0": 2, "e1": 3, "e2": 5, "e3": 11, "C": 13, "N": 17, "i0": 19, "i1": 23, "S": 29, "D": 31, "1": 1, "u0": 1, "u1": 1}
 
 
 class AxisViolation(Exception):
     """The rule addresses a wrong axis (raised by a sink / vmap model)."""
 
 
+def size_of(label: str) -> int:
+    if label.startswith("merge(") and label.endswith(")"):
+        a, b = _split2(label[6:-1])
+        return size_of(a) * size_of(b)
+    return SIZES.get(label, 37)
+
+
+def _split2(s: str) -> Tuple[str, str]:
+    depth = 0
+    for i, ch in enumerate(s):
+        if ch == "(":
+            depth += 1
+        elif ch == ")":
+            depth -= 1
+        elif ch == "," and depth == 0:
+            return s[:i], s[i + 1:]
+    return s, ""
+
+
 def arr(labels: Sequence[str], dtype: Any = "f32") -> Obj:
     labels = tuple(labels)
-    o = Obj("Array", ndim=len(labels), shape=tuple(SIZES.get(l, 37) for l in labels), labels=labels, dtype=dtype, size=1)
+    o = Obj("Array", ndim=len(labels), shape=tuple(size_of(l) for l in labels), labels=labels, dtype=dtype, size=1)
     return o
 
 
@@ -153,6 +172,29 @@ class Model:
     def second(arrays, p):
         """element-wise in the SECOND operand (searchsorted: every query is located in an unbatched table)"""
         return arr(labels_of(arrays[1])), set()
+
+    @staticmethod
+    def attention(arrays, p):
+        """q (..., T, N, H), k / v (..., S, N, H); bias / mask are left-padded to (batch, N, T, S).  The result is laid out
+        like q; side operands must line up with (batch, heads, T, S) axis by axis (unit axes broadcast)."""
+        q, k = labels_of(arrays[0]), labels_of(arrays[1])
+        if len(q) < 3 or len(k) < 3 or len(q) != len(k):
+            raise EvalRaise("ValueError")
+        if len(q) > 4:
+            raise EvalRaise("ValueError")
+        bq = q[-4] if len(q) == 4 else "1"
+        want = (bq, q[-2], q[-3], k[-3])
+        n_side = int(bool(p.get("has_bias"))) + int(bool(p.get("has_mask")))
+        for s_ in arrays[3:3 + n_side]:
+            Ls = labels_of(s_)
+            if len(Ls) > 4:
+                raise AxisViolation(f"a bias / mask operand of rank {len(Ls)} {Ls} for logits of rank 4")
+            padded = ("1",) * (4 - len(Ls)) + Ls
+            for have, exp in zip(padded, want):
+                base = have[3:] if have.startswith("rep") else have
+                if have != "1" and have != exp and not (have.startswith("rep") and str(size_of(exp)) == base):
+                    raise AxisViolation(f"bias / mask axes {Ls} are read as (batch, heads, T, S) = {padded} but the logits are laid out as {want}: axis `{have}` lands on `{exp}`")
+        return arr(q), set(q[-3:]) | set(k[-3:-2])
 
     @staticmethod
     def trailing(arrays, p):
@@ -281,7 +323,7 @@ class Model:
         return arr(L[:pos] + ("N",) + L[pos:]), set()
 
 
-KINDS: Dict[str, Callable[..., Any]] = {k: getattr(Model, k) for k in ("elementwise", "broadcast", "matmul", "dot", "whole", "outer", "diag", "second", "trailing", "along", "preserve", "reduce", "size", "insert", "stack", "concat", "squeeze", "transpose", "split", "unstack", "take", "diagonal", "linspace")}
+KINDS: Dict[str, Callable[..., Any]] = {k: getattr(Model, k) for k in ("elementwise", "broadcast", "attention", "matmul", "dot", "whole", "outer", "diag", "second", "trailing", "along", "preserve", "reduce", "size", "insert", "stack", "concat", "squeeze", "transpose", "split", "unstack", "take", "diagonal", "linspace")}
 
 
 class Spec:
@@ -437,8 +479,14 @@ class BatchEval(Evaluator):
                 raise AxisViolation("concatenated operands do not share one axis layout")
             c = canon(ax, len(L))
             return arr(L[:c] + ("S" if L[c] == "1" else L[c],) + L[c + 1:])
+        if last == "broadcast_to" and len(args) == 2 and is_arr(args[0]) and isinstance(args[1], (tuple, list)) and len(args[1]) == len(labels_of(args[0])) \
+                and all(s == t_ or s == 1 for s, t_ in zip(args[0].attrs["shape"], args[1])):
+            # same rank: unit axes are stretched; the stretched axis repeats its content along the target extent
+            L = labels_of(args[0])
+            names = self.spec.const.get("_stretch_names", {})
+            return arr(tuple((names.get(t_, f"rep{t_}") if s == 1 and t_ != 1 else l) for l, s, t_ in zip(L, args[0].attrs["shape"], args[1])))
         if last == "broadcast_to" and len(args) == 2 and is_arr(args[0]) and isinstance(args[1], (tuple, list)):
-            rev = {v: k for k, v in SIZES.items() if v != 1 and k not in ("b0", "k")}
+            rev = {v: k for k, v in SIZES.items() if v != 1 and k not in ("b0", "k", "n0", "T", "N", "H", "S")}
             new = tuple(rev.get(s, "?") for s in args[1])
             old = labels_of(args[0])
             if old and tuple(new[len(new) - len(old):]) != old:
@@ -453,6 +501,13 @@ class BatchEval(Evaluator):
                 if shp.count(-1) == 1 and k == len(shp) - 1 and tuple(shp[:k]) == tuple(sizes[:k]):
                     return arr(L[:k] + (f"flat({','.join(L[k:])})",))
                 raise Unsupported("reshape with -1 that is not a trailing flatten")
+            # merge of the two leading axes / its inverse
+            if len(L) >= 2 and len(shp) == len(L) - 1 and shp[0] == sizes[0] * sizes[1] and tuple(shp[1:]) == tuple(sizes[2:]):
+                return arr((f"merge({L[0]},{L[1]})",) + L[2:])
+            if L and L[0].startswith("merge(") and len(shp) == len(L) + 1:
+                a_, b_ = _split2(L[0][6:-1])
+                if (size_of(a_), size_of(b_)) == tuple(shp[:2]) and tuple(shp[2:]) == tuple(sizes[1:]):
+                    return arr((a_, b_) + L[1:])
             # un-flatten: the target extents are those of labelled axes
             comp: List[str] = []
             for l in L:
